@@ -108,13 +108,13 @@ fn same_outcome(s: &Outcome, a: &Outcome) -> Result<(), String> {
     }
 }
 
-fn sync_script(root: &vfs::VfsPath, path: &str, len: u64, script: &[ROp]) -> Result<Vec<Result<(u64, Vec<u8>), String>>, String> {
+fn sync_script(root: &vfs::VfsPath, path: &str, len: u64, script: &[ROp], extremes: bool) -> Result<Vec<Result<(u64, Vec<u8>), String>>, String> {
     let mut h = at(root, path).map_err(|e| e.to_string())?.open_file().map_err(|e| e.to_string())?;
     let mut out = vec![];
     for op in script {
         match op {
             ROp::Seek(w, o) => {
-                let sf = seek_from(w, o, len, false, None);
+                let sf = seek_from(w, o, len, extremes, None);
                 out.push(h.seek(sf).map(|p| (p, vec![])).map_err(|e| format!("{:?}", e.kind())));
             }
             ROp::ReadToEnd(_) => {
@@ -462,12 +462,14 @@ fn test(case: &Case, st: &mut Stats, counting: bool, nplans: usize, panics_only:
                         Some(Node::File(b)) => b.len() as u64,
                         _ => 0,
                     };
-                    let sres = sync_script(&s.root, &f, len, &case.scripts[script_i]).map_err(|m| (step, m))?;
+                    // seeks to the ends of the offset range (u64::MAX - k, i64::MAX, i64::MIN) included
+                    let extremes = true;
+                    let sres = sync_script(&s.root, &f, len, &case.scripts[script_i], extremes).map_err(|m| (step, m))?;
                     let targets: Vec<&vfs::async_vfs::AsyncVfsPath> = std::iter::once(&a.root).chain(ps.iter().map(|p| &p.root)).collect();
                     for (ti, t) in targets.iter().enumerate() {
                         let r = AssertUnwindSafe(async {
                             let mut h = aat(t, &f).map_err(|e| e.to_string())?.open_file().await.map_err(|e| e.to_string())?;
-                            Ok::<_, String>(arun_read_script(&mut *h, len, &case.scripts[script_i]).await)
+                            Ok::<_, String>(arun_read_script(&mut *h, len, &case.scripts[script_i], extremes).await)
                         })
                         .catch_unwind()
                         .await;
